@@ -20,7 +20,8 @@ LEVEL = "model_checking"
 ENCODED = [("traits/traits_listener.py", ["ListenerItem.register", "ListenerItem.unregister", "ListenerItem.handle_simple",
                                           "ListenerItem.handle_dst", "ListenerItem.handle_list", "ListenerItem.handle_list_items",
                                           "ListenerItem.handle_dict", "ListenerItem.handle_dict_items", "ListenerParser.parse"]),
-           ("traits/has_traits.py", ["HasTraits.on_trait_change", "HasTraits._on_trait_change"])]
+           ("traits/has_traits.py", ["HasTraits.on_trait_change", "HasTraits._on_trait_change", "_get_instance_handlers",
+                                     "HasTraits._list_items_changed_handler"])]
 EXPLANATION = ("Differential bounded exploration: legacy extended names vs observe expressions on tree-shaped graphs, list indices "
                "symbolic; independent reachability evaluator as third party.")
 STUBS = G.c04.STUBS
